@@ -80,6 +80,15 @@ type Sched struct {
 	Preempts int
 	// MaxParked is the largest number of simultaneously parked points (concurrency reach).
 	MaxParked int
+	// Waiters, when set, returns the number of goroutines polling for a lock of the code
+	// under test (lock facade). LockWaits counts quiescent points at which one was still
+	// waiting although the clock had been advanced: the holder is parked inside I/O.
+	// FlagLockWait makes that a violation.
+	Waiters      func() int64
+	LockWaits    int
+	FlagLockWait bool
+	// OnStop is called when the run ends, before the remaining goroutines are let loose.
+	OnStop func()
 }
 
 func NewSched(t *Tape) *Sched {
@@ -203,7 +212,12 @@ func (s *Sched) grant(p *Point) {
 }
 
 //go:norace
-func (s *Sched) stop() { s.off = true }
+func (s *Sched) stop() {
+	if s.OnStop != nil {
+		s.OnStop()
+	}
+	s.off = true
+}
 
 //go:norace
 func (s *Sched) takeFlag() *Violation { return s.flag }
@@ -216,6 +230,20 @@ func (s *Sched) Run() *Violation {
 	var buf []*Point
 	for {
 		synctest.Wait()
+		if s.Waiters != nil && s.Waiters() > 0 {
+			// let pollers retry without granting anything: a lock released just before this
+			// quiescent point is then taken; one that stays taken is held by a parked goroutine
+			for i := 0; i < 3 && s.Waiters() > 0; i++ {
+				time.Sleep(1)
+				synctest.Wait()
+			}
+			if s.Waiters() > 0 {
+				s.LockWaits++
+				if s.FlagLockWait {
+					return &Violation{Kind: "would-block", Site: "lock", Detail: "a call is waiting for a lock that another call holds while it is parked inside I/O on its own reader/writer: calls block on one another"}
+				}
+			}
+		}
 		if v := s.takeFlag(); v != nil {
 			return v
 		}
